@@ -111,6 +111,8 @@ class NameGen:
             s = 'D' + s
         return s
 
+    rr_max = 255
+
     def rr_name(self):
         r = self.r
         k = r.random()
@@ -118,6 +120,8 @@ class NameGen:
             n = r.randint(1, 12)
         elif k < 0.85:
             n = self._edge(1, 255, (1, 60, 100, 150, 200, 224, 250, 254, 255))
+        elif self.rr_max > 255 and k > 0.93:
+            n = self._edge(256, self.rr_max, (256, 300, 500, 501, 750, 1000, 1100))
         else:
             n = self._edge(1, 255, (100, 180, 190, 200, 210, 220, 230, 240, 250))
         s = ''.join(r.choice(RRCHARS) for _ in range(n))
@@ -169,7 +173,10 @@ class NameGen:
             else:
                 lo, hi = r.choice(((100, 120), (200, 249), (250, 250), (255, 255), (256, 300)))
                 comps.append(self._word(RRCHARS.replace('.', ''), min(lo, maxcomp), min(hi, maxcomp)))
-        t = '/'.join(comps)
+        # the Rock Ridge entries that overflow the directory record have to fit into one 2048-byte continuation area
+        while comps and sum(len(c.encode('utf-8')) + 2 for c in comps) + 5 * (1 + len(comps) // 20) > 1600:
+            comps.pop()
+        t = '/'.join(comps) or 'x'
         if r.random() < 0.3:
             t = '/' + t
         return t
@@ -178,7 +185,7 @@ class NameGen:
 WEIGHTS = {
     'add_fp': 30, 'add_dir': 14, 'rm_file': 6, 'rm_dir': 4, 'add_link': 8, 'rm_link': 5,
     'add_symlink': 5, 'hide': 3, 'add_eltorito': 3, 'rm_eltorito': 1, 'add_isohybrid': 1,
-    'rm_isohybrid': 1, 'dup_pvd': 0.3, 'restart': 4, 'mass_dirs': 1, 'mass_files': 1, 'add_boot_file': 0,
+    'rm_isohybrid': 1, 'dup_pvd': 0.3, 'restart': 4, 'mass_dirs': 1, 'mass_files': 1, 'add_boot_file': 0, 're_add': 0,
 }
 
 
@@ -668,6 +675,35 @@ class OpGen:
 
     def g_restart(self):
         return {'op': 'restart'}
+
+    def g_re_add(self):
+        """Re-add a name that existed and was removed (must be accepted), as a file or as a directory."""
+        m = self.m
+        r = self.ra
+        cands = [(ns, p, k) for ns, p, k in m.removed_names if ns in m.roots and m.free(ns, p) and M._valid_new(m, ns, p)]
+        if not cands:
+            return None
+        ns, p, kind = r.choice(cands)
+        as_dir = (kind == 'dir') if r.random() < 0.6 else (kind != 'dir')
+        if as_dir:
+            op = {'op': 'add_dir', ns: p}
+        else:
+            op = {'op': 'add_fp', 'blob': self.next_blob, 'len': self._size(), ns: p, 'route': 'fp'}
+        if ns == 'iso':
+            nm = p.rsplit('/', 1)[1]
+            if as_dir and (';' in nm or '.' in nm) and m.cfg['level'] < 4:
+                return None
+            if not as_dir and m.cfg['level'] < 4 and '.' not in nm and ';' not in nm and len(nm) > 8 and m.cfg['level'] == 1:
+                return None
+            if m.rr:
+                rn = self._new_rr_name(M.split(p)[0])
+                if rn is None:
+                    return None
+                op['rr'] = rn
+        if not as_dir:
+            self.next_blob += 1
+        op['_readd'] = True
+        return op
 
     def _mass(self, isdir):
         """Macro-op: many siblings in one parent, so that directory extents, UDF FID areas and
